@@ -138,6 +138,12 @@ class World(object):
         for uid in sorted(self.pushed):
             if uid not in self.final:
                 ev.append(('tfinal', uid))
+        if self.scn.get('pairs_final'):
+            # one state message which names the same task more than once (its
+            # full update from the agent's output stager and its final state)
+            for uid in sorted(self.pushed):
+                if uid not in self.final:
+                    ev.append(('tfinal_dup', uid))
         if not self.scn.get('pairs_final'):
             return ev
         live = [u for u in sorted(self.pushed) if u not in self.final]
@@ -312,6 +318,21 @@ class World(object):
                     arg.append({'uid': pid, 'type': 'pilot', 'state': st})
                 s._base_state_cb(rpc.STATE_PUBSUB, seams.wire(
                     {'cmd': 'update', 'arg': arg}))
+            elif kind == 'tfinal_dup':
+                uid = ev[1]
+                self.final.add(uid)
+                arg = list()
+                for st in (rps.TMGR_STAGING_OUTPUT_PENDING,
+                           rps.TMGR_STAGING_OUTPUT, rps.DONE):
+                    t = copy.deepcopy(self.task_by_uid(uid))
+                    t['state'] = st
+                    t['pilot'] = self.pushed[uid]
+                    arg.append(t)
+                td = arg[0]['description']
+                self.used[self.pushed[uid]] -= td['ranks'] * \
+                                               td['cores_per_rank']
+                s._base_state_cb(rpc.STATE_PUBSUB, seams.wire(
+                    {'cmd': 'update', 'arg': arg}))
             elif kind in ('tfinal', 'tfinal2'):
                 arg = list()
                 for uid in ev[1:]:
@@ -335,7 +356,7 @@ class World(object):
         return {'submit': 'work', 'add': 'control_cb', 'remove': 'control_cb',
                 'add2': 'control_cb',
                 'pstate': '_base_state_cb', 'pstate2': '_base_state_cb',
-                'tfinal': 'update_tasks',
+                'tfinal': 'update_tasks', 'tfinal_dup': 'update_tasks',
                 'tfinal2': 'update_tasks'}[kind]
 
     def task_by_uid(self, uid):
